@@ -562,6 +562,42 @@ Proof.
   - intros ty. mg. apply (proj1 (wc_cmp_grows codata (fdname d) lg (fdbody d))).
 Qed.
 
+(* the definitions that come first (fix <commitmain>: when main is called, the entry point under a fresh label
+   and main compiled like any other definition): their names are main and generated labels, in some order *)
+Lemma compile_main_group_names : forall lg called d codata ul g ul',
+  compile_main_group lg called d codata ul = Ok (g, ul') ->
+  exists gl, ul' = gl ++ ul /\ fresh_list gl ul /\ Permutation (map cdname g) (map new_id (fdname d :: gl)).
+Proof.
+  intros lg called d codata ul g ul' H. unfold compile_main_group in H.
+  destruct (called && negb lg).
+  - pose proof (fresh_name_fresh ul "main") as [Hfr Hsnd].
+    destruct (fresh_name ul "main") as [nm ul1] eqn:Efn. simpl in Hfr, Hsnd. subst ul1.
+    destruct (compile_main lg (entry_fdef d nm) codata (nm :: ul)) as [[e ule]|?] eqn:Ee; simpl in H; [|discriminate].
+    destruct (compile_def lg d codata ule) as [[m ulm]|?] eqn:Em; simpl in H; [|discriminate].
+    injection H as Hg Hul. subst g ul'.
+    destruct (compile_main_names _ _ _ _ _ _ Ee) as [gle [Hule [[Hnde Hfe] Hne]]]. subst ule.
+    destruct (compile_def_names _ _ _ _ _ _ Em) as [glm [Hulm [[Hndm Hfm] Hnm]]]. subst ulm.
+    exists (glm ++ gle ++ [nm]). split; [rewrite <- !app_assoc; reflexivity|]. split.
+    + split.
+      * apply NoDup_app_intro; [exact Hndm | |].
+        -- apply NoDup_app_intro; [exact Hnde | repeat constructor; intros [] |].
+           intros x Hx [Hc|[]]. subst x. apply (Hfe nm Hx). left. reflexivity.
+        -- intros x Hx Hc. apply (Hfm x Hx). apply in_app_or in Hc. apply in_or_app.
+           destruct Hc as [Hc|[Hc|[]]]; [left; exact Hc | right; left; exact Hc].
+      * intros x Hx Hc. apply in_app_or in Hx. destruct Hx as [Hx|Hx].
+        -- apply (Hfm x Hx). apply in_or_app. right. right. exact Hc.
+        -- apply in_app_or in Hx. destruct Hx as [Hx|[Hx|[]]].
+           ++ apply (Hfe x Hx). right. exact Hc.
+           ++ subst x. exact (Hfr Hc).
+    + rewrite map_app, Hne, Hnm. simpl. rewrite !map_app. simpl.
+      change (new_id nm :: map new_id gle ++ new_id (fdname d) :: map new_id glm)
+        with ((new_id nm :: map new_id gle) ++ new_id (fdname d) :: map new_id glm).
+      eapply Permutation_trans; [apply Permutation_app_comm|]. simpl. apply perm_skip.
+      apply Permutation_app_head. change (new_id nm :: map new_id gle) with ([new_id nm] ++ map new_id gle).
+      apply Permutation_app_comm.
+  - destruct (compile_main_names _ _ _ _ _ _ H) as [gl [H1 [H2 H3]]]. exists gl. rewrite H3. auto.
+Qed.
+
 Definition names_ok (ul : list string) (rest : list fdef) (ns : list cident) : Prop :=
   forall n, In n ns -> exists x, n = new_id x /\ In x ul /\ ~ In x (map fdname rest).
 
@@ -598,24 +634,29 @@ Proof.
   - intros d' Hd'. apply in_or_app. right. apply Hin. right. exact Hd'.
 Qed.
 
-Lemma compile_defs_names : forall lg defs codata ul front back res,
-  compile_defs lg defs codata ul front back = Ok res ->
+Lemma compile_defs_names : forall lg called defs codata ul front back res,
+  compile_defs lg called defs codata ul front back = Ok res ->
   NoDup (map fdname defs) ->
   (forall d, In d defs -> In (fdname d) ul) ->
   NoDup (map cdname front ++ map cdname back) ->
   names_ok ul defs (map cdname front ++ map cdname back) ->
   NoDup (map cdname res).
 Proof.
-  intros lg. induction defs as [|d r IH]; intros codata ul front back res H Hnd Hin Hacc Hok; simpl in H.
+  intros lg called. induction defs as [|d r IH]; intros codata ul front back res H Hnd Hin Hacc Hok; simpl in H.
   - injection H as H. subst res. rewrite rev_append_rev, app_nil_r, map_app, map_rev.
     eapply Permutation_NoDup; [|exact Hacc].
     apply Permutation_app_head. apply Permutation_rev.
   - destruct (String.eqb (fdname d) "main").
-    + destruct (compile_main lg d codata ul) as [[g ul']|e] eqn:E; simpl in H; [|discriminate].
-      destruct (compile_main_names _ _ _ _ _ _ E) as [gl [Hul [Hf Hg]]]. subst ul'.
-      destruct (group_step d r ul gl (map cdname g) _ Hnd Hin Hf Hg Hacc Hok) as [H1 [H2 H3]].
+    + destruct (compile_main_group lg called d codata ul) as [[g ul']|e] eqn:E; simpl in H; [|discriminate].
+      destruct (compile_main_group_names _ _ _ _ _ _ _ E) as [gl [Hul [Hf Hg]]]. subst ul'.
+      destruct (group_step d r ul gl _ _ Hnd Hin Hf eq_refl Hacc Hok) as [H1 [H2 H3]].
       inversion Hnd; subst.
-      eapply IH; [exact H | assumption | exact H3 | |]; rewrite map_app, <- app_assoc; assumption.
+      assert (Hp : Permutation (map new_id (fdname d :: gl) ++ map cdname front ++ map cdname back)
+                               (map cdname g ++ map cdname front ++ map cdname back)).
+      { apply Permutation_app_tail. apply Permutation_sym. exact Hg. }
+      eapply IH; [exact H | assumption | exact H3 | |]; rewrite map_app, <- app_assoc.
+      * eapply Permutation_NoDup; [exact Hp | exact H1].
+      * intros n Hn. apply H2. eapply Permutation_in; [apply Permutation_sym; exact Hp | exact Hn].
     + destruct (compile_def lg d codata ul) as [[g ul']|e] eqn:E; simpl in H; [|discriminate].
       destruct (compile_def_names _ _ _ _ _ _ E) as [gl [Hul [Hf Hg]]]. subst ul'.
       destruct (group_step d r ul gl (map cdname g) _ Hnd Hin Hf Hg Hacc Hok) as [H1 [H2 H3]].
@@ -641,7 +682,7 @@ Theorem compile_prog_gen_def_names_distinct : forall lg p c,
   NoDup (map cdname (cpdefs c)).
 Proof.
   intros lg p c H Hnd. unfold compile_prog_gen in H.
-  destruct (compile_defs lg (fcpdefs p) _ _ [] []) as [defs|e] eqn:E; simpl in H; [|discriminate].
+  destruct (compile_defs lg _ (fcpdefs p) _ _ [] []) as [defs|e] eqn:E; simpl in H; [|discriminate].
   injection H as H. subst c. simpl.
   eapply compile_defs_names; [exact E | exact Hnd | | constructor | intros n []].
   intros d Hd. apply in_map. exact Hd.
